@@ -186,8 +186,22 @@ def enumerate_faults(world, opts, facts):
         out.append({"class": "config", "kind": "noninteger_column", "table": table, "value": "abc"})
         out.append({"class": "config", "kind": "noninteger_column", "table": table, "value": "1.5"})
         out.append({"class": "config", "kind": "negative_column", "table": table})
+        # a field mapped to a column the sheet does not have (beyond its last column): an optional one and a mandatory one
+        # (only where some sheet that is read has rows in that table: a mapping no row is ever read through is harmless)
+        if any(t["rows"] for s in _sheets_read(world, opts) for t in s["tables"] if t["type"] == table):
+            opt_fields = [f for f in world["headers"][table] if f in W.FIELDS[table][1]]
+            if opt_fields:
+                out.append({"class": "config", "kind": "column_beyond_sheet", "table": table, "field": opt_fields[len(table) % len(opt_fields)]})
+            out.append({"class": "config", "kind": "column_beyond_sheet", "table": table, "field": W.FIELDS[table][0][-1]})
         out.append({"class": "config", "kind": "unknown_header_key", "table": table})
         out.append({"class": "config", "kind": "empty_header_section", "table": table})
+    # the optional generators field of [general]: names of report generator plugins; one that does not exist (a typo, another
+    # country's generator) next to valid ones, and alone
+    gens = list(facts[country]["generators"])
+    foreign = {"us": "jp.tax_report_jp", "jp": "us.tax_report_us"}.get(country, "us.tax_report_us")
+    out.append({"class": "config", "kind": "unknown_generator", "value": gens + ["tax_report_nonexistent"]})
+    out.append({"class": "config", "kind": "unknown_generator", "value": gens[:1] + [foreign]})
+    out.append({"class": "config", "kind": "unknown_generator", "value": ["open_positionz"]})
     out.append({"class": "config", "kind": "unknown_section"})
     # unknown sections whose names are words the config format uses elsewhere (field and list names): still not sections
     for word in ("notes", "exchanges", "holder", "unique_id coinbase", "assets", "timestamp", "crypto_fee"):
@@ -411,7 +425,11 @@ def apply_fault(world, opts, fault):
                     return s
             raise KeyError(name)
 
-        if kind == "drop_section":
+        if kind == "unknown_generator":
+            world["generators"] = list(fault["value"])
+            text = W.render_config(world)
+            secs = _config_sections(text)
+        elif kind == "drop_section":
             secs = [s for s in secs if s[0].strip() != "[%s]" % fault["section"]]
         elif kind == "duplicate_section":
             s = sec(fault["section"])
@@ -430,6 +448,9 @@ def apply_fault(world, opts, fault):
                         s[1][i] = "%s = %s, , %s" % (fault["field"], first, "Zed")
                     else:
                         s[1][i] = "%s =" % fault["field"]
+        elif kind == "column_beyond_sheet":
+            s = sec(hs[fault["table"]])
+            s[1] = [ln if not ln.startswith(fault["field"] + " =") else "%s = %d" % (fault["field"], world["ncols"] + 27) for ln in s[1]]
         elif kind in ("duplicate_column", "noninteger_column", "negative_column", "unknown_header_key", "empty_header_section"):
             s = sec(hs[fault["table"]])
             body = [ln for ln in s[1] if "=" in ln]
